@@ -28,7 +28,7 @@ using namespace c12;
 namespace {
 
 struct Shared {
-    uint64_t execs, threw, rejected, yielded, waiting, multi_segment, high_byte, requests;
+    uint64_t execs, threw, rejected, yielded, waiting, multi_segment, high_byte, requests, boundary_seeds;
 };
 Shared *g_sh = nullptr;
 
@@ -75,9 +75,16 @@ bool feed(const std::string &payload, const Cuts &cuts) {
                 Request *r = parser.getRequest();
                 if (!r) { vh::viol("fuzz/parser/finished-without-request", "getRequest() returned null in kFinishedAll"); return false; }
                 if (!r->isValid()) { vh::viol("fuzz/parser/incomplete-request-handed-out", canon(*r).substr(0, 200)); delete r; return false; }
+                std::string declared;
+                if (!declared_length_honoured(*r, &declared)) {
+                    vh::viol("fuzz/parser/body-differs-from-declared-length", vh::fmt("Content-Length %s, body of %zu bytes, parse() returned %zu of %zu", declared.c_str(),
+                                                                                       r->body.size(), used, n));
+                    delete r; return false;
+                }
                 delete r;
                 ++requests;
-                if (used == 0 && ++spins > 4) { vh::viol("fuzz/parser/no-progress", "kFinishedAll without consuming a byte, repeatedly"); return false; }
+                (void)spins;
+                if (used == 0) { vh::viol("fuzz/parser/no-progress/finished-without-consuming", "parse() returned 0 with state kFinishedAll"); return false; }
             } else if (st == RequestParser::State::kFail) {
                 failed = true;
                 break;
@@ -131,7 +138,9 @@ extern "C" int LLVMFuzzerInitialize(int *argc, char ***argv) {
                 int m = (int)r.range(1, 3);
                 for (int q = 0; q < m; ++q) v.push_back(gen_request(r, q, o, -1));
                 std::string what, bytes;
-                if (f % 3 == 0) for (auto &t : v) bytes += t.wire; else bytes = mutate(r, v, &what);
+                if (f % 3 == 0) for (auto &t : v) bytes += t.wire;
+                else if (f % 3 == 1 && f < 16) { std::string cls; bool tail; bytes = boundary_length_stream(r, 0, &what, &cls, &tail); ++g_sh->boundary_seeds; }
+                else bytes = mutate(r, v, &what);
                 size_t k = (size_t)r.below(4);
                 std::string file(1, (char)k);
                 for (size_t q = 0; q < k; ++q) file += (char)r.byte();
@@ -182,6 +191,7 @@ extern "C" int LLVMFuzzerInitialize(int *argc, char ***argv) {
     vh::counter("fuzz_multi_segment_execs", g_sh->multi_segment);
     vh::counter("fuzz_inputs_with_byte_ge_0x80", g_sh->high_byte);
     vh::counter("fuzz_requests_handed_out", g_sh->requests);
+    vh::counter("fuzz_seeds_with_boundary_content_length", g_sh->boundary_seeds);
     vh::counter("fuzz_sessions", vh::st().cases);
     vh::finish();
     fflush(stdout);
